@@ -13,13 +13,13 @@ head = subprocess.run("git -C /repo rev-parse HEAD", shell=True, capture_output=
 args = sys.argv[1:]
 round2 = False
 rnd = 1
-if args and args[0] in ("--round2", "--round3", "--round4", "--round5", "--round6", "--round7", "--round8", "--round9", "--round10", "--round11"):
+if args and args[0] in ("--round2", "--round3", "--round4", "--round5", "--round6", "--round7", "--round8", "--round9", "--round10", "--round11", "--round12"):
     round2 = True  # rounds 2 and 3 share the meta format (demo_dest + demo_cmd)
     rnd = int(args[0][len("--round"):])
     args = args[1:]
 for prop in args:
-    wt = {1: f"/tmp/seed-{prop}", 2: f"/tmp/seed2-{prop}", 3: f"/tmp/seed3-{prop}", 4: f"/tmp/seed4-{prop}", 5: f"/tmp/seed5-{prop}", 6: f"/tmp/seed6-{prop}", 7: f"/tmp/seed7-{prop}", 8: f"/tmp/seed8-{prop}", 9: f"/tmp/seed9-{prop}", 10: f"/tmp/seed10-{prop}", 11: f"/tmp/seed11-{prop}"}[rnd]
-    for ab in {1: "AB", 2: "CD", 3: "EF", 4: "GH", 5: "IJ", 6: "KL", 7: "MN", 8: "OP", 9: "QR", 10: "ST", 11: "U"}[rnd]:
+    wt = {1: f"/tmp/seed-{prop}", 2: f"/tmp/seed2-{prop}", 3: f"/tmp/seed3-{prop}", 4: f"/tmp/seed4-{prop}", 5: f"/tmp/seed5-{prop}", 6: f"/tmp/seed6-{prop}", 7: f"/tmp/seed7-{prop}", 8: f"/tmp/seed8-{prop}", 9: f"/tmp/seed9-{prop}", 10: f"/tmp/seed10-{prop}", 11: f"/tmp/seed11-{prop}", 12: f"/tmp/seed12-{prop}"}[rnd]
+    for ab in {1: "AB", 2: "CD", 3: "EF", 4: "GH", 5: "IJ", 6: "KL", 7: "MN", 8: "OP", 9: "QR", 10: "ST", 11: "U", 12: "V"}[rnd]:
         sd = f"{wt}/seedout/{ab}"
         if not os.path.exists(sd + "/patch.diff"):
             print(prop, ab, "no patch"); continue
